@@ -200,6 +200,19 @@ chk("C04", "proof",
     "Certified oracle (Coq soundness/completeness proof) run by extraction over enumerated document spaces",
     "DESIGN.md section 4 C04")
 
+chk("C05", "proof",
+    "Proved (Coq, closed under the global context): (1) the arithmetic under every inline position - calculate_deltas and its application move "
+    "a position exactly as reading the consumed text character by character does, for every text and start position; (2) the oracle pos_ok holds "
+    "exactly when the line exists, the column lies within it or one past its end, and the source shows the element's opening text there; the "
+    "order check means what it says. That every token of every document satisfies the oracle is NOT proved: the extracted oracle (mirrored in "
+    "Python and compared on every token) is run over every positioned token of enumerated document spaces, among them multi-line inline "
+    "elements (wrapped link/image destinations incl. non-ASCII, escaped and angle-bracket forms, multi-line code spans, raw HTML, emphasis, hard "
+    "breaks) in paragraphs, block quotes and list items. calc_deltas is tied to ParserHelper.calculate_deltas on every string over {a, LF} to length 7/10.",
+    "Trusted: Coq kernel + vm_compute, extraction + driver.ml, the position abstraction harness/posabs.py (expected opening text per token kind). "
+    "The differential against the spec model's positions (DESIGN) is not built.",
+    "Certified position oracle + proved delta arithmetic; extraction; enumeration of positioned tokens",
+    "DESIGN.md section 4 C05")
+
 NOT_YET = {}
 
 
